@@ -152,6 +152,42 @@ func verifH_C32_hedging() {
 	}
 }
 
+// A hedge's losing attempt arrives while another chunk is still pending, and that
+// chunk then fails: the call must still return.
+//
+//verif:sched quick=0 thorough=1
+//verif:stub (*net/http.Client).Head = verifC32Head
+//verif:stub (*net/http.Client).Get = verifC32Get
+//verif:stub (*net/http.Client).Do = verifC32Do
+//verif:stub net/http.NewRequestWithContext = verifC32NewRequest
+//verif:stub io.ReadAll = verifC32ReadAll
+//verif:stub time.Now = verifC32Now
+//verif:stub time.Since = verifC32Since
+//verif:stub context.WithCancel = verifC32WithCancel
+//verif:bound a resource of 8 bytes in 4 chunks, parallelism 4, hedging on (multiplier 1.0, one hedge): the first three ranges are answered exactly, the fourth exactly / with a transport failure / with a 500, the hedged duplicate exactly or with a transport failure; every choice among runnable goroutines at blocking points (which decides who is slow: an original may lose to its hedge and report later, while the fourth chunk is still pending), with 0 (thorough: 1) preemptions
+func verifH_C32_hedge_loser() {
+	verifC32Plan, verifC32Seen = map[string]int{}, map[string]int{}
+	verifC32Requests, verifC32Tick, verifC32Simple = 0, 0, 0
+	verifC32HeadFails, verifC32NoRanges = false, false
+	verifC32Resource = []byte("abcdefgh")
+	for i := 0; i < 4; i++ {
+		k := c32Exact
+		if i == 3 {
+			k = []int{c32Exact, c32Transport, c32Status}[verifChoice("last.behaviour", 3)]
+		}
+		verifC32Plan["bytes="+strconv.Itoa(2*i)+"-"+strconv.Itoa(2*i+1)] = k
+	}
+	verifC32HedgePlan = []int{c32Exact, c32Transport}[verifChoice("hedge.behaviour", 2)]
+	cfg := &FetchConfig{ParallelThresholdBytes: 1, ChunkSizeBytes: 2, MaxParallelRequests: 4, MaxFetchBytes: 1 << 20,
+		SpeculativeRetryMultiplier: 1.0, MaxSpeculativeHedges: 1}
+	data, err := FetchWithParallelRangeRequests(&http.Client{}, "https://origin/x", cfg)
+	verifReach("four-chunk-fetch-returned")
+	verifAssert(err != nil || string(data) == string(verifC32Resource), "the fetch returns exactly the bytes of the resource, or an error")
+	if verifC32Plan["bytes=6-7"] == c32Exact {
+		verifAssert(err == nil, "when every first answer is right the resource is returned, whatever became of the duplicate")
+	}
+}
+
 func verifC32Run() (hedged bool) {
 	verifC32Plan, verifC32Seen = map[string]int{}, map[string]int{}
 	verifC32Requests, verifC32Tick, verifC32Simple = 0, 0, 0
